@@ -45,7 +45,7 @@ class NewGen:
     def field(self, name, tparams, top, opts):
         ty, dk = self.pick_type(tparams)
         f = {"k": "f", "name": name, "type": ty, "new": False, "def": None, "tagskip": False,
-             "get": False, "set": False, "json": None, "hasdoc": False}
+             "get": False, "set": False, "json": None, "hasdoc": False, "dstyle": self.rng.choice([0, 0, 1, 2, 3])}
         if top:
             if opts.get("new") and self.rng.random() < opts["new"]:
                 f["new"] = True
@@ -210,7 +210,16 @@ def render_struct(s):
             if m.get("def") is not None:
                 dirs.append("def=" + m["def"])
             if dirs:
-                lines.append("\t// shoot: " + ";".join(dirs))
+                st = m.get("dstyle", 0)
+                if st == 1:
+                    lines.append("\t//shoot: " + "; ".join(dirs))
+                elif st == 2:
+                    lines.append("\t// %s is a field" % m["name"])
+                    lines.append("\t// Shoot: " + ";".join(d if d.startswith("def=") else d.upper() for d in dirs))
+                elif st == 3:
+                    lines.append("\t// shoot:  " + ";".join(dirs) + ";")
+                else:
+                    lines.append("\t// shoot: " + ";".join(dirs))
             elif m.get("hasdoc"):
                 lines.append("\t// %s is documented" % m["name"])
             tags = []
